@@ -756,7 +756,7 @@ class Connection (EventMixin):
     log.info(str(self) + " " + str(m))
 
   def __init__ (self, sock):
-    self._previous_stats = []
+    self._previous_stats = {} # (xid,type) -> parts of incomplete replies
 
     self.ofnexus = _dummyOFNexus
     self.sock = sock
@@ -954,39 +954,26 @@ class Connection (EventMixin):
     return True
 
   def _incoming_stats_reply (self, ofp):
-    # This assumes that you don't receive multiple stats replies
-    # to different requests out of order/interspersed.
+    # Replies to different requests may arrive interspersed, so the parts of
+    # incomplete replies are kept per (xid, type).
+    key = (ofp.xid, ofp.type)
     if not ofp.is_last_reply:
       if ofp.type not in [of.OFPST_FLOW, of.OFPST_TABLE,
                                 of.OFPST_PORT, of.OFPST_QUEUE]:
         log.error("Don't know how to aggregate stats message of type " +
                   str(ofp.type))
-        self._previous_stats = []
+        self._previous_stats.pop(key, None)
         return
+      self._previous_stats.setdefault(key, []).append(ofp)
+      return
 
-    if len(self._previous_stats) != 0:
-      if ((ofp.xid == self._previous_stats[0].xid) and
-          (ofp.type == self._previous_stats[0].type)):
-        self._previous_stats.append(ofp)
-      else:
-        log.error("Was expecting continued stats of type %i with xid %i, "
-                  "but got type %i with xid %i",
-                  self._previous_stats[0].type,
-                  self._previous_stats[0].xid,
-                  ofp.type, ofp.xid)
-        self._previous_stats = [ofp]
-    else:
-      self._previous_stats = [ofp]
-
-    if ofp.is_last_reply:
-      handler = statsHandlerMap.get(self._previous_stats[0].type, None)
-      s = self._previous_stats
-      self._previous_stats = []
-      if handler is None:
-        log.warn("No handler for stats of type " +
-                 str(self._previous_stats[0].type))
-        return
-      handler(self, s)
+    s = self._previous_stats.pop(key, [])
+    s.append(ofp)
+    handler = statsHandlerMap.get(ofp.type, None)
+    if handler is None:
+      log.warn("No handler for stats of type " + str(ofp.type))
+      return
+    handler(self, s)
 
   def __str__ (self):
     #return "[Con " + str(self.ID) + "/" + str(self.dpid) + "]"
